@@ -80,6 +80,10 @@ func (r *Run) Op(op, implAnswer string) {
 	r.Ops++
 }
 
+// Stat sends an op to the Lean driver whose answer is tallied into the evidence (input statistics decided by
+// the model, e.g. "does this real stream satisfy the theorem's hypotheses"), not compared with the implementation.
+func (r *Run) Stat(op string) { r.Op(op, "STAT") }
+
 // Case counts one evaluated case of the property observable. key identifies the case for the
 // distinct count; nontrivial says whether it exercises the property by the check's stated rule.
 func (r *Run) Case(key string, nontrivial bool) {
